@@ -413,7 +413,24 @@ class C11(Machine):
                     # moving a component away behind the data set's back is the caller's doing: the data set is out of step
                     # until its namespaces are unified again - which has to bring this component back in
                     self.ds_out_of_step = True
-                L.migrate_taxon_namespace(ns_t, unify_taxa_by_label=st["unify"])
+                if st["flag"] and st["n"] == 0 and ns_t is not L.taxon_namespace:
+                    # fault: the target namespace is locked; a refused migration leaves the list and every tree as they were
+                    ns0 = L.taxon_namespace
+                    ns_t.is_mutable = False
+                    rec.fault("namespace_locked_during_import")
+                    try:
+                        L.migrate_taxon_namespace(ns_t, unify_taxa_by_label=st["unify"])
+                    except dperror.ImmutableTaxonNamespaceError:
+                        ns_t.is_mutable = True
+                        if L.taxon_namespace is not ns0:
+                            rec.violation("CLOSURE", {"op": op, "what": "refused_but_changed"}, "a refused migration switched the list's namespace")
+                            raise StopRun()
+                        rec.probe("list_migration_refused")
+                        return "refused"       # (the invariant after the step judges the trees)
+                    finally:
+                        ns_t.is_mutable = True
+                else:
+                    L.migrate_taxon_namespace(ns_t, unify_taxa_by_label=st["unify"])
                 if L.taxon_namespace is not ns_t:
                     rec.violation("CLOSURE", {"op": op, "what": "list_namespace"}, "migrate_taxon_namespace did not switch the list's namespace")
                     raise StopRun()
